@@ -53,7 +53,9 @@ theorem leading_blanks (opt : Nat) (ws t : Str) (hw : ∀ c ∈ ws, isBlank c = 
         · split
           · split
             · rfl
-            · exact ih _ _ _ _ _
+            · split
+              · rfl
+              · exact ih _ _ _ _ _
           · split
             · rfl
             · exact ih _ _ _ _ _
@@ -61,7 +63,7 @@ theorem leading_blanks (opt : Nat) (ws t : Str) (hw : ∀ c ∈ ws, isBlank c = 
   | cons b bs ih =>
     intro i
     have hb := hw b List.mem_cons_self
-    rw [List.cons_append, filterGo_leading [] 0 i b (bs ++ t) hb (by decide)]
+    rw [List.cons_append, filterGo_leading [] 0 i b (bs ++ t) hb]
     exact ih (fun c hc => hw c (List.mem_cons_of_mem _ hc)) _
 
 /-- **spacing behind the mnemonic**: once the separator has been seen (state SPACE_FOUND, any
